@@ -30,6 +30,8 @@ TEXTS = {
     '[a]': ('ind_reg', 'a', 0), '[a+1]': ('ind_reg', 'a', 1), '[b]': ('ind_reg', 'b', 0),
     'a+1': ('idx_reg', 'a', 1), '{5}': ('curly', None, 5),
     'foo+1': ('num', None, 8), 'foo_x': ('num', None, 3),      # expressions / identifiers that merely begin with an enumeration key
+    # a register name under a unary operator or function is still a register name inside an expression: nothing accepts these
+    '-a': ('predec', 'a', None), '-b': ('predec', 'b', None), 'LSB(b)': ('regexpr', 'b', None), 'BYTE0(A)': ('regexpr', 'a', None), '5+-sp': ('regexpr', 'sp', None),
 }
 TEXTS_Q2 = ['a', 'b', 'sp', '5', 'foo', '[5]', '[a]', 'a+1']
 
@@ -50,6 +52,8 @@ alt('reg_a', 1, lambda c: {'type': 'register', 'register': 'a', 'bytecode': {'va
     lambda cat: (True, None) if cat[0] == 'reg' and cat[1] == 'a' else None)
 alt('reg_b', 1, lambda c: {'type': 'register', 'register': 'b', 'bytecode': {'value': c, 'size': 4}},
     lambda cat: (True, None) if cat[0] == 'reg' and cat[1] == 'b' else None)
+alt('predec_a', 1, lambda c: {'type': 'register', 'register': 'a', 'bytecode': {'value': c, 'size': 4}, 'decorator': {'type': 'minus', 'is_prefix': True}},
+    lambda cat: (True, None) if cat[0] == 'predec' and cat[1] == 'a' else None)        # written -a: a decorated register, not the negation of one
 alt('numeric', 2, lambda c: {'type': 'numeric', 'bytecode': {'value': c, 'size': 4}, 'argument': _arg8()},
     lambda cat: (True, cat[2]) if cat[0] in ('num', 'key', 'keyz') else None)
 alt('numeric_va', 2, lambda c: {'type': 'numeric', 'bytecode': {'value': c, 'size': 4},
